@@ -71,6 +71,8 @@ CUR = [None]  # the active universe (hooks of all harness classes report to it)
 def _mk_hook(name):
     def hook(self, arg):
         CUR[0].hook(name, self, arg)
+        # what a hook returns means nothing: a falsy non-None value (a count, an empty tuple) must not veto or change anything
+        return 0 if name.startswith("_pre") else ()
 
     hook.__name__ = name
     return hook
